@@ -290,16 +290,16 @@ PROPS = {
     },
     "C19": {
         "ext_in_quick": True,
-        "lean_targets": ["Pep508.Theorems.Tables", "Pep508.Theorems.C08b", "Pep508.Theorems.C19", "Pep508.Theorems.C19b", "Pep508.Theorems.NonVacuityC"],
-        "theorems": ["Pep508.Tables.archive_lists", "Pep508.Tables.archive_extensions_accepted", "Pep508.C08.unnamed_roundtrip_full", "Pep508.C08.unnamed_layout_full", "Pep508.C19.unnamed_no_panic", "Pep508.C19.unnamed_err_boundary", "Pep508.C19.unnamed_call_span", "Pep508.C19.scan_is_rule", "Pep508.C19.parse_unnamed_url_is_rule", "Pep508.C19.rule_is_first_stop", "Pep508.C19.token_no_ws", "Pep508.C19.ws_in_brackets", "Pep508.C19.accepts", "Pep508.C19.accepts_marker", "Pep508.C19.roundtrip", "Pep508.C19.roundtrip_marker", "Pep508.C19.bracket_ambiguity", "Pep508.C19.old_requirement_end", "Pep508.C19.archive_rule", "Pep508.C19.scheme_rule", "Pep508.C19.path_unsupported", "Pep508.C19.path_never_accepted",
+        "lean_targets": ["Pep508.Theorems.Tables", "Pep508.Theorems.C08b", "Pep508.Theorems.C19", "Pep508.Theorems.C19b", "Pep508.Theorems.C19c", "Pep508.Theorems.NonVacuityC"],
+        "theorems": ["Pep508.C19.strip_host_suffix", "Pep508.C19.strip_host_localhost", "Pep508.C19.strip_host_empty_host", "Pep508.C19.strip_host_other_host", "Pep508.C19.strip_host_no_host", "Pep508.Tables.archive_lists", "Pep508.Tables.archive_extensions_accepted", "Pep508.C08.unnamed_roundtrip_full", "Pep508.C08.unnamed_layout_full", "Pep508.C19.unnamed_no_panic", "Pep508.C19.unnamed_err_boundary", "Pep508.C19.unnamed_call_span", "Pep508.C19.scan_is_rule", "Pep508.C19.parse_unnamed_url_is_rule", "Pep508.C19.rule_is_first_stop", "Pep508.C19.token_no_ws", "Pep508.C19.ws_in_brackets", "Pep508.C19.accepts", "Pep508.C19.accepts_marker", "Pep508.C19.roundtrip", "Pep508.C19.roundtrip_marker", "Pep508.C19.bracket_ambiguity", "Pep508.C19.old_requirement_end", "Pep508.C19.archive_rule", "Pep508.C19.scheme_rule", "Pep508.C19.path_unsupported", "Pep508.C19.path_never_accepted",
                      "Pep508.C19.scheme_url_unsupported", "Pep508.C19.scheme_url_never_accepted", "Pep508.C19.relpath_unsupported",
                      "Pep508.C19.relpath_never_accepted", "Pep508.C19.archive_name_unsupported", "Pep508.C19.archive_name_extras_unsupported",
                      "Pep508.C19.archive_name_never_accepted", "Pep508.C19.scheme_not_a_name", "Pep508.C19.span_conventions"],
         "suites": [{"name": "req", "args": ["C19"]}, {"name": "req", "args": ["C19"], "features": "ext"}],
         "rule": "generated shapes (13 scheme forms x 7 rests, 7 first path segments incl. ones that are not valid names x 2 separators x 3 tails, every shape again behind 3 kinds of leading whitespace) and 33 hand-picked shapes (scheme URLs, absolute/relative/Windows/UNC paths, `.`/`..`, every pip archive extension incl. two-part ones, near misses such as `foo.tar.gz.sig`, `x.tar.gz2`) x six "
                 "suffixes (none, extras, marker, both, spaced extras, trailing blanks): never accepted as a named requirement and rejected with the unsupported-requirement kind; every outcome "
-                "is compared with the Lean model (looksLikeUnnamed, splitScheme, splitExtras, looksLikeArchive with the std::path extension rules); split_scheme / split_extras are compared "
-                "directly; non-trivial = distinct texts",
+                "is compared with the Lean model (looksLikeUnnamed, splitScheme, splitExtras, looksLikeArchive with the std::path extension rules); split_scheme / split_extras / strip_host are compared "
+                "directly (also on texts with a 2-, 3- or 4-byte scalar at every position and C0 controls around the URL); non-trivial = distinct texts",
         "trusted": ["the unnamed-requirement parser (feature non-pep508-extensions) is exercised only when the harness is built with that feature (quick and thorough tier of C19, C08, C06, C18, C17; thorough tier of the others)"], "assumptions": [],
     },
 }
